@@ -1717,13 +1717,31 @@ def handle_block(entries) -> list[str]:
     return s
 
 
+def _typechecks(path: Path):
+    """does the generated file elaborate? (True | False, log) — None when it cannot be decided here (no lake project around
+    the output directory, or the model modules it imports have not been built yet)"""
+    import subprocess
+    lean_dir = path.parent.parent.parent
+    if not (lean_dir / 'lakefile.toml').exists() and not (lean_dir / 'lakefile.lean').exists():
+        return None, ''
+    try:
+        r = subprocess.run(['lake', 'env', 'lean', str(path)], cwd=lean_dir, stdout=subprocess.PIPE, stderr=subprocess.STDOUT,
+                           text=True, timeout=600)
+    except Exception as e:  # noqa: lake not installed / not runnable here
+        return None, str(e)
+    if r.returncode == 0:
+        return True, ''
+    if 'object file' in r.stdout or 'unknown module prefix' in r.stdout or 'unknown package' in r.stdout:
+        return None, r.stdout
+    return False, r.stdout
+
+
 def generate(repo: Path, outdir: Path) -> dict:
     tp = outdir / 'CScalar.lean'
     old = tp.read_text() if tp.exists() else ''
     failed, names, known = {}, {}, {}
-    s = [HEADER]
     done = 0
-    entries = []
+    entries, blocks = [], []
     for tg in TARGETS:
         blk = 'cscalar:' + tg['key']
         try:
@@ -1743,10 +1761,41 @@ def generate(repo: Path, outdir: Path) -> dict:
         entries.append((tg['lean'], [kd for _, kd in allp], uses_dt,
                         'opt' if tg.get('flag_const') else ('trace' if tg.get('trace') else ('list' if tg['ret_kind'] == 'list' else ''))))
         names[blk] = ['Mahotas.Generated.C.' + n for n in defined_names('\n'.join(lines))]
-        s += [f'-- BEGIN block {blk}'] + list(lines) + [f'-- END block {blk}', '']
-    s += handle_block(entries)
-    s += ['end Mahotas.Generated.C', '']
-    changed = _write_if_changed(tp, '\n'.join(s))
+        blocks.append([blk, list(lines)])
+
+    def render():
+        s = [HEADER]
+        for blk, lines in blocks:
+            s += [f'-- BEGIN block {blk}'] + lines + [f'-- END block {blk}', '']
+        return '\n'.join(s + handle_block(entries) + ['end Mahotas.Generated.C', ''])
+    text = render()
+    changed = text != old
+    if changed:
+        # The driver imports this file: a definition that does not elaborate would take every property down. Check the new
+        # text; a block whose new text does not type-check keeps its last text and is reported like an untranslatable one.
+        _write_if_changed(tp, text)
+        ok, log = _typechecks(tp)
+        if ok is False:
+            why = 'the generated definition does not type-check: ' + ' | '.join(l for l in log.splitlines() if 'error' in l)[:300]
+            cand = [b for b in blocks if _stale_block(old, b[0]) not in (None, b[1])]
+            fixed = False
+            for b in cand:                      # usually ONE function was edited: find the block whose last text repairs the file
+                new_lines, b[1] = b[1], _stale_block(old, b[0])
+                _write_if_changed(tp, render())
+                if _typechecks(tp)[0] is not False:
+                    failed.setdefault(b[0], why)
+                    fixed = True
+                    break
+                b[1] = new_lines
+            if not fixed:                       # several at once: all changed blocks keep their last text
+                for b in cand:
+                    b[1] = _stale_block(old, b[0])
+                    failed.setdefault(b[0], why)
+                _write_if_changed(tp, render())
+                if _typechecks(tp)[0] is False:
+                    if old:
+                        _write_if_changed(tp, old)
+                    raise TranslationError('Generated/CScalar.lean does not type-check: ' + log[-600:])
     return dict(cscalar_changed=changed, cscalar_functions=done, _failed=failed, _names=names)
 
 
